@@ -365,6 +365,8 @@ modint_field!(f_mi_spec3, ModInt256<0x20CD9255FD615923, 0xACAFC103CD968A25, 0xFF
 modint_field!(f_mi_spec4, ModInt256<0xFFFFFFFFFFFFFFFF, 0xFFFFFFFFFFFFFFFF, 0xFFFFFFFFFFFFFFFF, 0xFFFFFFFFFFFFFFFB>);
 modint_field!(f_mi_spec5, ModInt256<0xFFFFFFFFFFFFFFFF, 0xFFFFFFFFFFFFFFFF, 0xFFFFFFFFFFFFFF70, 0xFFFFFFFFFFFFFFFF>);
 modint_field!(f_mi_spec6, ModInt256<0xFFFFFFFFFFFFFFFF, 0xFFFFFFFFFFFFFFFF, 0xFFFFFFFFFFFFFFFF, 0x8000000000000021>);
+// BLS12-381 scalar field: low 32-bit limb equal to 1, high two-adicity (q = 1 mod 2^32)
+modint_field!(f_mi_bls, ModInt256<0xFFFFFFFF00000001, 0x53BDA402FFFE5BFE, 0x3339D80809A1D805, 0x73EDA753299D7D48>);
 // 193-bit prime 2^192 + 133 (smallest supported size class).
 modint_field!(f_mi_193, ModInt256<0x0000000000000085, 0x0000000000000000, 0x0000000000000000, 0x0000000000000001>);
 
@@ -758,6 +760,7 @@ pub struct FieldRegs {
     mi_spec4: Vec<ModInt256<0xFFFFFFFFFFFFFFFF, 0xFFFFFFFFFFFFFFFF, 0xFFFFFFFFFFFFFFFF, 0xFFFFFFFFFFFFFFFB>>,
     mi_spec5: Vec<ModInt256<0xFFFFFFFFFFFFFFFF, 0xFFFFFFFFFFFFFFFF, 0xFFFFFFFFFFFFFF70, 0xFFFFFFFFFFFFFFFF>>,
     mi_spec6: Vec<ModInt256<0xFFFFFFFFFFFFFFFF, 0xFFFFFFFFFFFFFFFF, 0xFFFFFFFFFFFFFFFF, 0x8000000000000021>>,
+    mi_bls: Vec<ModInt256<0xFFFFFFFF00000001, 0x53BDA402FFFE5BFE, 0x3339D80809A1D805, 0x73EDA753299D7D48>>,
     mi_193: Vec<ModInt256<0x0000000000000085, 0x0000000000000000, 0x0000000000000000, 0x0000000000000001>>,
     #[cfg(not(feature = "w32"))]
     g127: Vec<gg::G127>,
@@ -800,6 +803,7 @@ pub fn dispatch(ty: &str, op: &str, a: &[&str], r: &mut FieldRegs) -> R {
         "mi_spec4" => f_mi_spec4(op, a, &mut r.mi_spec4),
         "mi_spec5" => f_mi_spec5(op, a, &mut r.mi_spec5),
         "mi_spec6" => f_mi_spec6(op, a, &mut r.mi_spec6),
+        "mi_bls" => f_mi_bls(op, a, &mut r.mi_bls),
         "mi_193" => f_mi_193(op, a, &mut r.mi_193),
         #[cfg(not(feature = "w32"))]
         "g127" => f_g127(op, a, &mut r.g127),
